@@ -527,7 +527,7 @@ class ChunkDump:
     rg: int
     col: int
     parts: List[ReadPart]
-    end: str = "?"                 # OK | ERR | OVERRUN | OPENERR
+    end: str = "?"                 # OK | ERR | OVERRUN | OPENERR | CUT (output line cut by the death of the case)
     rows_reported: int = 0
     max_def: int = 0
 
@@ -651,11 +651,17 @@ def parse_dump(out, maxdef=None):
             c = cur.col
             pt = d.schema[c].ptype if c < len(d.schema) else "INT32"
             tl = d.schema[c].type_length if c < len(d.schema) else 0
-            n = int(kv["nvals"])
-            cur.parts.append(ReadPart(int(kv["ret"]), _levels(kv["defs"]), _levels(kv["reps"]), _values(kv["vals"], pt, tl, n)))
+            try:
+                n = int(kv["nvals"])
+                cur.parts.append(ReadPart(int(kv["ret"]), _levels(kv["defs"]), _levels(kv["reps"]), _values(kv["vals"], pt, tl, n)))
+            except (KeyError, ValueError):
+                cur.end = "CUT"       # the child died while printing this line (d.fault says why)
         elif ln.startswith("chunk_end ") and cur is not None:
             kv = _kv(ln)
-            cur.end, cur.rows_reported = kv["end"], int(kv["rows"])
+            try:
+                cur.end, cur.rows_reported = kv["end"], int(kv["rows"])
+            except (KeyError, ValueError):
+                cur.end = "CUT"
     return d
 
 
@@ -828,8 +834,11 @@ def parse_history(out, col, nops=None):
                 res.append(r)
         elif t[0] == "read" and len(t) > 2 and t[2].startswith("ret="):
             kv = _kv(ln)
-            res.append(ReadPart(int(kv["ret"]), _levels(kv["defs"]), _levels(kv["reps"]),
-                                _values(kv["vals"], pt, tl, int(kv["nvals"]))))
+            try:
+                res.append(ReadPart(int(kv["ret"]), _levels(kv["defs"]), _levels(kv["reps"]),
+                                    _values(kv["vals"], pt, tl, int(kv["nvals"]))))
+            except (KeyError, ValueError):
+                res.append(None)      # line cut by the death of the case
         elif t[0] == "skip":
             res.append(int(_kv(ln)["ret"]))
         elif t[0] == "has_next":
@@ -885,6 +894,9 @@ def parse_batches(out):
             kv = _kv(ln)
             if "nv" not in kv:
                 batches[-1].columns.append(BatchColumn(-1, -1, None, []))
+                continue
+            if "nvals" not in kv or "vals" not in kv or "bitmap" not in kv:
+                batches[-1].columns.append(BatchColumn(-1, -1, None, []))      # line cut by the death of the case
                 continue
             fc = int(kv["filecol"])
             pt = meta.schema[fc].ptype if 0 <= fc < len(meta.schema) else "INT32"
